@@ -841,7 +841,18 @@ class BlockBase(Base):
                                     obj.restore_reader(reader)
                                 return None
                             continue
-                    if match_names:
+                    # A labelled DO loop closed by an END DO statement is
+                    # subject to the same name rules as an unlabelled one
+                    # (C821) although its construct does not ask for
+                    # match_names (its other terminator, a labelled
+                    # CONTINUE, cannot carry a name).
+                    end_do_names = (
+                        match_labels
+                        and not match_names
+                        and hasattr(obj, "get_end_name")
+                        and hasattr(content[start_idx], "get_start_name")
+                    )
+                    if match_names or end_do_names:
                         start_name, end_name = (
                             content[start_idx].get_start_name(),
                             content[-1].get_end_name(),
@@ -852,7 +863,11 @@ class BlockBase(Base):
                                 reader,
                                 f"Name '{end_name}' has no corresponding starting name",
                             )
-                        elif strict_match_names and start_name and not end_name:
+                        elif (
+                            (strict_match_names or end_do_names)
+                            and start_name
+                            and not end_name
+                        ):
                             raise FortranSyntaxError(
                                 reader, f"Expecting name '{start_name}' but none given"
                             )
